@@ -739,13 +739,18 @@ def rule_instances(m) -> List[str]:
 
 # ----------------------------------------------------------------------------- fixed scenarios (run in a fresh interpreter)
 SCENARIO_FINDING = {"names_coincide": "C04-f", "nested_function": "C04-i", "nested_type": "C04-i", "negative_cache": "C04-j",
-                    "deep_chain": "C04-k", "postinit_cycle": "C04-l"}
-SCENARIO_PROPS = {"C04": ["negative_cache", "nested_function", "names_coincide", "deep_chain", "postinit_cycle"],
-                  "C05": ["negative_cache", "nested_function", "nested_type", "names_coincide", "deep_chain", "postinit_cycle"]}
+                    "deep_chain": "C04-k", "postinit_cycle": "C04-l", "set_cycle": "C04-m", "mapping_hierarchy": "C04-n",
+                    "flag_enum": "C05-d"}
+SCENARIO_PROPS = {"C04": ["negative_cache", "nested_function", "names_coincide", "deep_chain", "postinit_cycle", "set_cycle", "mapping_hierarchy"],
+                  "C05": ["negative_cache", "nested_function", "nested_type", "names_coincide", "deep_chain", "postinit_cycle", "set_cycle",
+                          "mapping_hierarchy", "flag_enum"]}
 # the recorded defect behaviour of the open findings (narrow match)
 SCENARIO_SIG = {"names_coincide": "angle 180.0", "nested_function": "Outer.method", "nested_type": "module-level Inner",
                 "negative_cache": "NoDAOFoundError after the layer was imported", "deep_chain": "RecursionError",
-                "postinit_cycle": "__post_init__ read the uninitialised partner"}
+                "postinit_cycle": "__post_init__ read the uninitialised partner",
+                "set_cycle": "AttributeError: the set hashed an element that is allocated but not initialised",
+                "mapping_hierarchy": "child of a mapping hierarchy decoded twice: name 'cba'",
+                "flag_enum": "LookupError at commit for READ|WRITE"}
 
 _SCN_NESTED = """
 class Inner:            # a module-level namesake of the nested class
@@ -811,6 +816,86 @@ class Dept:
 class Person:
     name: str = ""
     dept: Optional[Dept] = None
+"""
+
+_SCN_CLUB = """
+from __future__ import annotations
+from dataclasses import dataclass, field
+from typing import Optional, Set
+
+
+@dataclass
+class Club:
+    name: str
+    members: Set[Member] = field(default_factory=set)
+
+    def __hash__(self):
+        return hash(self.name)
+
+
+@dataclass
+class Member:                   # hashed by VALUE, as Person in test/dataset/university_ontology_like_classes.py
+    name: str
+    club: Optional[Club] = None
+
+    def __hash__(self):
+        return hash(self.name)
+"""
+
+_SCN_ENC = """
+from __future__ import annotations
+from dataclasses import dataclass
+from krrood.ormatic.dao import AlternativeMapping
+
+
+@dataclass
+class EncParent:
+    name: str = ""
+
+
+@dataclass
+class EncChild(EncParent):
+    extra: int = 0
+
+
+@dataclass
+class EncParentMapping(AlternativeMapping[EncParent]):
+    name: str                   # stored reversed: the same NAME, another content
+
+    @classmethod
+    def create_instance(cls, obj):
+        return cls(obj.name[::-1])
+
+    def create_from_dao(self):
+        return EncParent(self.name[::-1])
+
+
+@dataclass
+class EncChildMapping(EncParentMapping, AlternativeMapping[EncChild]):      # the pattern of ParentBaseMapping / ChildBaseMapping
+    extra: int = 0
+
+    @classmethod
+    def create_instance(cls, obj):
+        return cls(obj.name[::-1], obj.extra)
+
+    def create_from_dao(self):
+        return EncChild(self.name[::-1], self.extra)
+"""
+
+_SCN_FLAG = """
+from __future__ import annotations
+import enum
+from dataclasses import dataclass
+
+
+class Permission(enum.Flag):
+    READ = 1
+    WRITE = 2
+
+
+@dataclass
+class Document:
+    permission: Permission = Permission.READ
 """
 
 
@@ -943,6 +1028,67 @@ def _scenario_main(argv) -> int:
             return "__post_init__ read the uninitialised partner"      # the placeholder showed the class-level default
         ok = from_person.dept.head is from_person and from_person.dept.head_name == "ann"
         return None if ok else "entered at Person: wrong graph"
+
+    @scenario("set_cycle")
+    def _():
+        mod = generate("scn_club", _SCN_CLUB, ["Club", "Member"])
+        club = mod.Club("c")
+        m1, m2 = mod.Member("m1", club), mod.Member("m2", club)
+        club.members = {m1, m2}
+
+        def good(c, entry=None):
+            return (type(c.members) is set and sorted(m.name for m in c.members) == ["m1", "m2"] and all(m.club is c and m in c.members for m in c.members)
+                    and (entry is None or any(m is entry for m in c.members)))
+        if not good(to_dao(club).from_dao()):
+            return "entered at the Club: wrong graph"
+        try:
+            back = to_dao(m1).from_dao()
+        except AttributeError:
+            return "AttributeError: the set hashed an element that is allocated but not initialised"
+        return None if back.name == "m1" and good(back.club, back) else "entered at a Member: wrong graph"
+
+    @scenario("mapping_hierarchy")
+    def _():
+        mod = generate("scn_enc", _SCN_ENC, ["EncParent", "EncChild"], ["EncParentMapping", "EncChildMapping"])
+        dao = to_dao(mod.EncChild("abc", 7))
+        if dao.name != "cba":
+            return f"the DAO column holds {dao.name!r}"
+        plain = to_dao(mod.EncParent("abc")).from_dao()
+        if type(plain) is not mod.EncParent or plain.name != "abc":
+            return f"EncParent itself: name {plain.name!r}"
+        back = dao.from_dao()
+        if type(back) is mod.EncChild and back.name == "abc" and back.extra == 7:
+            return None
+        return f"child of a mapping hierarchy decoded twice: name {back.name!r}" if type(back) is mod.EncChild and back.extra == 7 \
+            else f"wrong object {back!r:.60}"
+
+    @scenario("flag_enum")
+    def _():
+        from sqlalchemy.exc import StatementError
+        from sqlalchemy.orm import Session
+        from krrood.ormatic.utils import create_engine
+        mod = generate("scn_flag", _SCN_FLAG, ["Document"])
+        daos = importlib.import_module("scn_flag_dao")
+        engine = create_engine("sqlite:///:memory:")
+        daos.Base.metadata.create_all(engine)
+        for value in (mod.Permission.READ, mod.Permission.READ | mod.Permission.WRITE):
+            try:
+                with Session(engine) as s1:
+                    dao = to_dao(mod.Document(value))
+                    s1.add(dao)
+                    s1.commit()
+                    pk = dao.database_id
+            except StatementError as e:
+                engine.dispose()
+                return "LookupError at commit for READ|WRITE" if isinstance(e.orig, LookupError) and value is not mod.Permission.READ \
+                    else f"StatementError for {value!r}: {str(e.orig)[:60]}"
+            with Session(engine) as s2:
+                back = s2.get(daos.DocumentDAO, pk).from_dao()
+            if back.permission != value or type(back.permission) is not mod.Permission:
+                engine.dispose()
+                return f"{value!r} restored as {back.permission!r}"
+        engine.dispose()
+        return None
 
     open(outfile, "w").write(json.dumps(out))
     return 0
